@@ -1,6 +1,8 @@
 """Statements, loops (cut by invariants), comprehensions, exception handling."""
 import ast
+import os as _os
 import z3
+_ORIGINS = _os.environ.get('VERIF_PROGRESS') == '1'
 from pyvc.values import qforall
 
 from .values import (V, Int, Str, Bool, SeqV, SeqS, NONE, ABSENT, TRUE, FALSE, mk_bool, mk_int, mk_str,
@@ -58,7 +60,19 @@ class StmtMixin:
         m = getattr(self, 's_' + type(n).__name__, None)
         if m is None:
             raise Unsupported('statement %s' % type(n).__name__)
-        return m(n, st)
+        if not _ORIGINS:
+            return m(n, st)
+        return self._with_origin(m(n, st), n, st)
+
+    def _with_origin(self, results, n, st):
+        # developer aid (VERIF_PROGRESS=1): remember the innermost statement an exception came from
+        for s1, out in results:
+            if out is not None and out[0] == 'exc' and getattr(out[1], 'origin', None) is None:
+                try:
+                    out[1].origin = '%s line %d: %s' % (st.fn, n.lineno, ast.unparse(n).split('\n')[0][:90])
+                except Exception:
+                    pass
+            yield s1, out
 
     def _lift(self, results, f=None):
         """expression results -> statement outcomes"""
@@ -468,7 +482,7 @@ class StmtMixin:
         entry = st.fork()
         # (1) invariant on entry
         L0 = LoopCtx(self, cx, st, z3.IntVal(0), it.n, it, entry)
-        for label, g in _lab(spec.inv(L0)):
+        for label, g in _lab(self._inv(spec, L0, tag)):
             self.oblige(st, '%s/inv-entry:%s' % (tag, label), g, 'inv-entry')
         # (2) havoc
         head = st.fork()
@@ -500,7 +514,7 @@ class StmtMixin:
         body.initial_syms = st.initial_syms
         body.assume(i >= 0, i < it.n)
         Li = LoopCtx(self, cx, body, i, it.n, it, entry)
-        for label, g in _lab(spec.inv(Li)):
+        for label, g in _lab(self._inv(spec, Li, tag)):
             body.assume(g)
         head_heap = dict(body.heap)
         e = self.nth_e(it, i)
@@ -530,7 +544,7 @@ class StmtMixin:
                                                                       z3.Select(s2.H(f), fr2) == z3.Select(head_heap[f], fr2))),
                                             'frame')
                     Ln = LoopCtx(self, cx, s2, i + 1, it.n, it, entry)
-                    for label, g in _lab(spec.inv(Ln)):
+                    for label, g in _lab(self._inv(spec, Ln, tag)):
                         self.oblige(s2, '%s/inv-preserved:%s' % (tag, label), g, 'inv-preserved')
                 elif o2[0] == 'break':
                     yield s2, None
@@ -539,7 +553,7 @@ class StmtMixin:
         # (3) after the loop
         done = head
         Lx = LoopCtx(self, cx, done, it.n, it.n, it, entry)
-        for label, g in _lab(spec.inv(Lx)):
+        for label, g in _lab(self._inv(spec, Lx, tag)):
             done.assume(g)
         yield done, None
 
@@ -547,6 +561,14 @@ class StmtMixin:
         raise Unsupported('while loop')
 
     # ------------------------------------------------------------------ comprehensions
+    def _inv(self, spec, L, tag):
+        """evaluate a loop invariant; an invariant that names a local variable the code no longer has cannot be
+        stated on this code: the function then leaves the annotated subset (never a checker fault)"""
+        try:
+            return spec.inv(L)
+        except (KeyError, AttributeError) as e:
+            raise Unsupported('%s: the loop invariant cannot be stated on this code (%s: %s)' % (tag, type(e).__name__, e))
+
     def comp_common(self, n, st, elt_nodes, build):
         if len(n.generators) != 1 or n.generators[0].is_async:
             raise Unsupported('nested comprehension')
